@@ -523,6 +523,12 @@ class Reads(Family):
         sp.ref("S", "q", 9)
         sp.cell("S", "n", F("n", "x", "sum(q + i for i in range(x + 1)) + (lambda: unused)()", "S.n", "(x,)",
                             "('M.S.q|byname-in-genexpr', 'M.S.unused|byname-in-lambda')"))
+        # references read only in code objects nested two and three levels deep (lambda inside a generator
+        # expression; generator expression inside a lambda inside a generator expression) -- seeded change C08-3
+        sp.ref("S", "q2", 11); sp.ref("S", "q3", 13)
+        sp.cell("S", "n2", F("n2", "x", "sum((lambda v: v + q2)(i) for i in range(x + 1))"
+                                        " + sum((lambda w: sum(q3 + j for j in range(w + 1)))(i) for i in range(2))", "S.n2", "(x,)",
+                             "('M.S.q2|byname-in-lambda-in-genexpr', 'M.S.q3|byname-in-genexpr-in-lambda-in-genexpr')"))
         sp.cell("S.Ch", "k", F("k", "x", "y + GC.z + _space.parent.r + _space.parent.a(x) + _space.g", "S.Ch.k", "(x,)",
                                "('M.S.Ch.y', 'M.S.Ch.GC.z|child-attr', 'M.S.r|parent-attr', 'M.g|space-attr-global')"))
         return sp
@@ -536,6 +542,10 @@ class Reads(Family):
                 e_delref("del-ref-deep-attr", "S.Ch.GC", "z"), e_flip("flip-reader", "S", "a"),
                 e_clear("clear_at-reader", "clear_at", "S", "a", (1,)),
                 ("new-ref-shadowing-global", "edit", lambda st: ("setref", "S", "g", 70 + st["step"]))]
+
+    def extra(self):
+        return [q("q-nested2-code-reader", "S", "n2", (1,)), e_setref("set-ref-nested2", "S", "q2", 12),
+                e_setref("set-ref-nested3", "S", "q3", 14)]
 
 
 class UChain(Family):
